@@ -3,7 +3,10 @@
     PYTHONHASHSEED=<h> python c07_child.py '<json cfg>' '<json env>'
 
 cfg  = the configuration (the same text for both members of a pair):
-       search, seed, sm, acq, mps, design, cond, nobj, moo, batches, mode, fail, acq_opt, transfer
+       search, seed, seed_type, space, sm, acq, mps, design, cond, nobj, moo, batches, mode, fail, ff, acq_opt, transfer,
+       fail_at (evaluation indices that fail), again (rounds with a second ask before the tell),
+       inproc = none | seq | interleaved (+ twins = 2|3): several searches built from ONE problem object before any of
+       them runs, then run one after the other / with alternating ask-tell rounds; their sequences are in "twins"
 env  = what MUST NOT matter: {"perturb": int, "log_dir": path, "cwd": path}
 Prints exactly one JSON line:
     {"status": "ok" | "unavailable" | "raised", "props": [[[name, value], ...], ...], "error": "..."}
@@ -147,83 +150,129 @@ def main():
         return {"np_global_touched": not bool(np_same), "py_global_touched": random.getstate() != sh_py.getstate()}
 
     out = {"status": "ok", "props": [], "error": ""}
-    problem = build_problem(cfg)
-
-    async def run(job):
-        return objective(cfg, job.parameters)
-
+    problem = build_problem(cfg)  # ONE problem object: every search of this process is built from it
+    names = problem.hyperparameter_names
     kind = cfg["search"]
+    fail_at = set(cfg.get("fail_at", []))
+    again = set(cfg.get("again", []))
+
+    class Drv:
+        """one search object being driven; its evaluations are numbered so that `fail_at` can make the i-th one fail"""
+
+        def __init__(self, idx):
+            self.idx, self.props, self.count, self.s = idx, [], 0, None
+
+        def evaluate(self, x):
+            i = self.count
+            self.count += 1
+            return "F_late" if i in fail_at else objective(cfg, x)
+
+        def build(self):
+            drv = self
+
+            async def run(job):
+                return drv.evaluate(job.parameters)
+
+            ev = Evaluator.create(run, method="serial", method_kwargs={"num_workers": 1})
+            common = dict(random_state=seed_value(cfg), log_dir=env["log_dir"] + ("" if self.idx == 0 else f"_{self.idx}"))
+            if kind == "CBO":
+                kw = dict(
+                    surrogate_model=cfg.get("sm", "ET"),
+                    acq_func=cfg.get("acq", "UCBd"),
+                    multi_point_strategy=cfg.get("mps", "cl_max"),
+                    initial_point_generator=cfg.get("design", "random"),
+                    n_initial_points=cfg.get("n_init", 4),
+                    n_points=cfg.get("n_points", 64),
+                    moo_scalarization_strategy=cfg.get("moo", "Chebyshev"),
+                    acq_optimizer=cfg.get("acq_opt", "auto"),
+                    filter_failures=cfg.get("ff", "min"),
+                )
+                if cfg.get("sm_kwargs"):
+                    kw["surrogate_model_kwargs"] = cfg["sm_kwargs"]
+                if cfg.get("acq_opt", "auto") in ("ga", "mixedga"):
+                    kw["acq_optimizer_freq"] = 1
+                s = CBO(problem, ev, **common, **kw)
+                if cfg.get("transfer") == "gmm":
+                    # transfer learning from a fixed table that lacks two hyperparameters
+                    import pandas as pd
+
+                    rs = np.random.RandomState(12345)
+                    rows = []
+                    for j in range(24):
+                        if cfg.get("space") == "small":
+                            rows.append({"job_id": j, "p:cat": SMALL_ACT[j % 3], "p:opt": SMALL_OPT[j % 4], "objective": float(rs.rand())})
+                        else:
+                            rows.append({"job_id": j, "p:i_log": int(rs.randint(1, 65)), "p:r": float(rs.uniform(-1.5, 2.5)),
+                                         "p:cat": ["a", "b", "c"][j % 3], "objective": float(rs.rand())})
+                    s.fit_generative_model(pd.DataFrame(rows))
+                if cfg.get("mode", "asktell") == "asktell":
+                    s._setup_optimizer()
+            elif kind == "RS":
+                s = RandomSearch(problem, ev, **common)
+            elif kind == "REGEVO":
+                s = RegularizedEvolution(problem, ev, **common, population_size=cfg.get("pop", 5), sample_size=cfg.get("sample", 3))
+            elif kind == "EDS":
+                from deephyper.hpo import ExperimentalDesignSearch
+
+                s = ExperimentalDesignSearch(problem, ev, **common, n_points=cfg.get("n_points", 12), design=cfg.get("design", "random"))
+                if cfg.get("mode", "asktell") == "asktell":
+                    s._setup_optimizer()
+            else:
+                raise SystemExit(f"unknown search {kind}")
+            self.s = s
+
+        def record(self, X):
+            for x in X:
+                self.props.append([[name, enc(x[name])] for name in names])
+
+        def round(self, k, n):
+            disturb(k)
+            X = self.s.ask(n)
+            self.record(X)
+            if k in again:
+                # ask again before any tell: the search must move on to new configurations (and stay reproducible)
+                disturb(k + 2)
+                X2 = self.s.ask(n)
+                self.record(X2)
+                X = X + X2
+            disturb(k + 1)
+            self.s.tell([Job(x, self.evaluate(x)) for x in X])
+
+        def whole_search(self):
+            disturb(self.idx)
+            df = self.s.search(max_evals=sum(cfg["batches"]))
+            for _, row in df.sort_values("job_id").iterrows():
+                self.props.append([[n, enc(row["p:" + n])] for n in names])
+
+    inproc = cfg.get("inproc", "none")
+    drvs = [Drv(i) for i in range(1 if inproc == "none" else int(cfg.get("twins", 2)))]
     try:
-        ev = Evaluator.create(run, method="serial", method_kwargs={"num_workers": 1})
-        common = dict(random_state=seed_value(cfg), log_dir=env["log_dir"])
-        if kind == "CBO":
-            kw = dict(
-                surrogate_model=cfg.get("sm", "ET"),
-                acq_func=cfg.get("acq", "UCBd"),
-                multi_point_strategy=cfg.get("mps", "cl_max"),
-                initial_point_generator=cfg.get("design", "random"),
-                n_initial_points=cfg.get("n_init", 4),
-                n_points=cfg.get("n_points", 64),
-                moo_scalarization_strategy=cfg.get("moo", "Chebyshev"),
-                acq_optimizer=cfg.get("acq_opt", "auto"),
-                filter_failures=cfg.get("ff", "min"),
-            )
-            if cfg.get("sm_kwargs"):
-                kw["surrogate_model_kwargs"] = cfg["sm_kwargs"]
-            if cfg.get("acq_opt", "auto") in ("ga", "mixedga"):
-                kw["acq_optimizer_freq"] = 1
-            s = CBO(problem, ev, **common, **kw)
-            if cfg.get("transfer") == "gmm":
-                # transfer learning from a fixed table that lacks two hyperparameters
-                import pandas as pd
-
-                rs = np.random.RandomState(12345)
-                rows = []
-                for j in range(24):
-                    if cfg.get("space") == "small":
-                        rows.append({"job_id": j, "p:cat": SMALL_ACT[j % 3], "p:opt": SMALL_OPT[j % 4], "objective": float(rs.rand())})
-                    else:
-                        rows.append({"job_id": j, "p:i_log": int(rs.randint(1, 65)), "p:r": float(rs.uniform(-1.5, 2.5)),
-                                     "p:cat": ["a", "b", "c"][j % 3], "objective": float(rs.rand())})
-                s.fit_generative_model(pd.DataFrame(rows))
-            if cfg.get("mode", "asktell") == "asktell":
-                s._setup_optimizer()
-        elif kind == "RS":
-            s = RandomSearch(problem, ev, **common)
-        elif kind == "REGEVO":
-            s = RegularizedEvolution(problem, ev, **common, population_size=cfg.get("pop", 5), sample_size=cfg.get("sample", 3))
-        elif kind == "EDS":
-            from deephyper.hpo import ExperimentalDesignSearch
-
-            s = ExperimentalDesignSearch(problem, ev, **common, n_points=cfg.get("n_points", 12), design=cfg.get("design", "random"))
-            if cfg.get("mode", "asktell") == "asktell":
-                s._setup_optimizer()
-        else:
-            raise SystemExit(f"unknown search {kind}")
+        for d in drvs:  # every search object exists BEFORE any of them runs
+            d.build()
     except Exception as e:  # configuration refused by the constructor: not available on this tree
         out["status"] = "unavailable"
         out["error"] = f"{type(e).__name__}: {e}"[:300]
         print(json.dumps(out))
         return
 
-    names = problem.hyperparameter_names
     try:
-        if cfg.get("mode", "asktell") == "search":
-            disturb(0)
-            df = s.search(max_evals=sum(cfg["batches"]))
-            for _, row in df.sort_values("job_id").iterrows():
-                out["props"].append([[n, enc(row["p:" + n])] for n in names])
-        else:
+        if inproc == "interleaved":
             for k, n in enumerate(cfg["batches"]):
-                disturb(k)
-                X = s.ask(n)
-                for x in X:
-                    out["props"].append([[name, enc(x[name])] for name in names])
-                disturb(k + 1)
-                s.tell([Job(x, objective(cfg, x)) for x in X])
+                for d in drvs:
+                    d.round(k, n)
+        else:
+            for d in drvs:
+                if cfg.get("mode", "asktell") == "search":
+                    d.whole_search()
+                else:
+                    for k, n in enumerate(cfg["batches"]):
+                        d.round(k, n)
     except Exception as e:
         out["status"] = "raised"
         out["error"] = f"{type(e).__name__}: {e}"[:300]
+    out["props"] = drvs[0].props
+    if len(drvs) > 1:
+        out["twins"] = [d.props for d in drvs[1:]]
     out.update(globals_touched())
     print(json.dumps(out))
 
